@@ -1,6 +1,7 @@
 import Apko.Model.Accounts
 import Apko.Model.AccountsSched
 import Apko.Driver.FS
+import Apko.Generated.TransAccounts
 /-! line-protocol handlers for corr:accounts (C13)
 
 All requests carry the node graph the real `tarfs` had *before* the call (`pre`, the canonical
@@ -361,6 +362,14 @@ def handle (args : List String) : Option String :=
   | "acc.accounts" :: pre :: goRes :: post :: toks => some (handleAccounts pre goRes post toks)
   | "acc.alias" :: pre :: goRes :: post :: toks => some (handleAlias pre goRes post toks)
   | "acc.e2e" :: sel :: toks => some (handleE2E sel toks)
+  | ["ta.user", name, uid, gid, shell, home] =>
+    -- the check on the Go → Lean translator (extract/trans.go): impl = the regenerated translation of
+    -- userToUserEntry, spec = the model (equal by Proofs/TransAccounts.lean)
+    let u : UserCfg := { name := ux name, uid := parseNat uid, gid := if gid = "-" then none else some (parseNat gid),
+                         shell := ux shell, home := ux home }
+    let showU (e : User) : String := "|".intercalate
+      [str (hex e.name), str (hex e.password), toString e.uid, toString e.gid, str (hex e.info), str (hex e.home), str (hex e.shell)]
+    some (showU (Generated.Trans.userToUserEntry u) ++ "\t" ++ showU (userToUserEntry u) ++ "\tunlisted")
   | _ => none
 
 end Apko.Driver.Accounts
